@@ -7,7 +7,10 @@ Case kinds
              == != <= < >= > and hash-equality over ALL ordered pairs; the Coq check compares
              every entry with the model and the spec and checks the order laws on all triples
   fromobj  : FormalConcept.from_objects on a list of object subsets of one context (by index / name)
-  pfromobj : PatternConcept.from_objects on interval-valued many-valued contexts
+  pfromobj : PatternConcept.from_objects on interval-valued many-valued contexts (by index and by name)
+  pallobj  : PatternConcept.from_objects on contexts over ALL shipped structures (SetPS with empty value
+             sets and multi-valued rows, AttributePS, both interval engines), every object subset, against
+             the many-valued model and spec of C13/C14
   setattr  : one attribute assignment on a concept
   hash     : FormalContext.hash_fixed against the adler32 model (default decimal names)
 """
@@ -31,7 +34,8 @@ RULE = ('cmp cases: all ordered pairs (and, for the order laws, all triples) of 
         'equal context: different content => refused, equal content => accepted; the stored hash must be the '
         'hash of the content), mining (pattern concepts from both close_by_one paths with from_objects twins and '
         'permuted is_extent selections: == true => equal hash, one set element, one dict key); fromobj cases: every object subset of a context with <= 6 (quick) / 8 (thorough) objects by '
-        'index and by name, permuted subsets, unknown names, is_extent, is_monotone; setattr: every public '
+        'index and by name, permuted subsets, unknown names, is_extent, is_monotone; pallobj cases: every object subset of many-valued contexts mixing SetPS (empty value sets, '
+        'multi-valued rows), AttributePS and the two interval engines; setattr: every public '
         'field; non-trivial = a cmp case with >= 3 concepts of which two are comparable and two are not, or a '
         'fromobj case on a non-constant table')
 EXHAUSTIVE = {'thorough': 'from_objects on every object subset of every generated context with <= 8 objects, '
@@ -340,9 +344,42 @@ def run_setattr(case):
     return {'err': err, 'unchanged': bool(unchanged)}
 
 
+def desc_json(d):
+    """A description of the implementation -> JSON-able canonical form."""
+    import numpy as np
+    if d is None:
+        return ['none']
+    if isinstance(d, (bool, np.bool_)):
+        return ['b', bool(d)]
+    if isinstance(d, (set, frozenset)):
+        return ['s', sorted(int(x) for x in d)]
+    lo, hi = Fraction(float(d[0])) * 4, Fraction(float(d[1])) * 4
+    if lo.denominator != 1 or hi.denominator != 1:
+        raise RuntimeError('interval end point off the grid')
+    return ['i', int(lo), int(hi)]
+
+
+def run_pallobj(case):
+    from fcapy.lattice.pattern_concept import PatternConcept
+    K = make_mv(case['ctx'])
+    h = K.hash_fixed()
+    outs = []
+    for objs, is_extent in case['items']:
+        def go():
+            c = PatternConcept.from_objects(list(objs), K, is_extent=is_extent)
+            n = len(case['ctx']['anames'])
+            intent = [desc_json(c.intent_i[j]) for j in range(n)]
+            if [desc_json(c.intent[nm(a)]) for a in case['ctx']['anames']] != intent:
+                raise RuntimeError('intent and intent_i disagree')
+            return [canon(list(c.extent_i)), name_ids(c.extent), intent, canon(c.context_hash)]
+        r = guarded(go, 20)
+        outs.append(['ok', r[1]] if r[0] == 'ok' else ['err', r[1], r[2]])
+    return {'h': h, 'outs': outs}
+
+
 def run_impl(case):
     kind = case['kind']
-    fn = {'cmp': run_cmp, 'fromobj': run_fromobj, 'pfromobj': run_fromobj, 'setattr': run_setattr,
+    fn = {'cmp': run_cmp, 'fromobj': run_fromobj, 'pfromobj': run_fromobj, 'pallobj': run_pallobj, 'setattr': run_setattr,
           'hash': lambda c: {'h': make_formal(c['ctx']).hash_fixed()}}[kind]
     r = guarded(lambda: fn(case), 60)
     return list(r)
@@ -372,6 +409,8 @@ def to_coq(case, out):
             return 'FromObjCase BLists %s 0%%Z [(ByIndex [], false, false, FErr 11)]' % fctx_term(case['ctx'])
         if kind == 'pfromobj':
             return 'PFromObjCase %s 0%%Z [(ByIndex [], false, false, PErr 11)]' % mv_term(case['ctx'])
+        if kind == 'pallobj':
+            return 'PAllCase %s 0%%Z [([], false, PAErr 11)]' % mvk_term(case['ctx'])
         if kind == 'setattr':
             return 'SetattrCase %s %d 11 false' % (coq(bool(case['pattern'])), case['key'])
         return 'HashCase %s (-1)%%Z' % fctx_term(case['ctx'])
@@ -403,9 +442,57 @@ def to_coq(case, out):
             return 'FromObjCase %s %s %s [%s]' % (COQ_BACKEND[case['ctx']['backend']], fctx_term(case['ctx']),
                                                   zlit(o['h']), '; '.join(items))
         return 'PFromObjCase %s %s [%s]' % (mv_term(case['ctx']), zlit(o['h']), '; '.join(items))
+    if kind == 'pallobj':
+        items = []
+        for (objs, e), r in zip(case['items'], o['outs']):
+            if r[0] == 'ok' and is_idx_list(r[1][0]) and isinstance(r[1][3], int):
+                a, an, ds, h = r[1]
+                t = '(PAOk %s %s [%s] %s)' % (coq(a), coq(an), '; '.join(
+                    pdesc_term_col(d, pt) for d, pt in zip(ds, case['ctx']['ptypes'])), zlit(h))
+            elif r[0] == 'ok':
+                t = '(PAErr 12)'
+            else:
+                t = '(PAErr %d)' % ERR_KINDS.get(r[1], 11)
+            items.append('(%s, %s, %s)' % (coq(list(objs)), coq(bool(e)), t))
+        return 'PAllCase %s %s [%s]' % (mvk_term(case['ctx']), zlit(o['h']), '; '.join(items))
     if kind == 'setattr':
         return 'SetattrCase %s %d %d %s' % (coq(bool(case['pattern'])), case['key'], o['err'], coq(bool(o['unchanged'])))
     return 'HashCase %s %s' % (fctx_term(case['ctx']), zlit(o['h']))
+
+
+PS_ = 'FCA.Model.PatternStructure.'
+
+
+def mvk_term(c):
+    """The context as a value of the C13/C14 model (Model/MVContext.v)."""
+    cols = []
+    for j, t in enumerate(c['ptypes']):
+        col = [row[j] for row in c['data']]
+        if t in ('IntervalPS', 'IntervalNumpyPS'):
+            cells = '; '.join('(%s, %s)' % (zlit(cell_code(x)[0]), zlit(cell_code(x)[1])) for x in col)
+            cols.append('(%s%s [%s])' % (PS_, 'CInterval' if t == 'IntervalPS' else 'CIntervalNp', cells))
+        elif t == 'SetPS':
+            cols.append('(%sCSet %s)' % (PS_, coq([sorted(x[1]) for x in col])))
+        else:
+            cols.append('(%sCAttr %s)' % (PS_, coq([bool(x[1]) for x in col])))
+    return '(FCA.Model.MVContext.mkMV %d [%s] %s %s %s)' % (
+        len(c['data']), '; '.join(cols), coq(c['onames']), coq(c['anames']), coq(c['anames']))
+
+
+def pdesc_term(d):
+    if d[0] == 'none':
+        raise ValueError('None is only an interval / set description; the column decides')
+    if d[0] == 'b':
+        return '(%sDAttr %s)' % (PS_, coq(d[1]))
+    if d[0] == 's':
+        return '(%sDSet (Some %s))' % (PS_, coq(d[1]))
+    return '(%sDIv (Some (%s, %s)))' % (PS_, zlit(d[1]), zlit(d[2]))
+
+
+def pdesc_term_col(d, ptype):
+    if d[0] == 'none':
+        return '(%sDSet None)' % PS_ if ptype == 'SetPS' else '(%sDIv None)' % PS_
+    return pdesc_term(d)
 
 
 def mv_term(c):
@@ -634,6 +721,37 @@ def fromobj_case(rng, tier, pattern):
     return {'kind': 'fromobj', 'ctx': c, 'items': fromobj_items(rng, c, upto)}
 
 
+def pallobj_case(rng, tier):
+    """from_objects on a many-valued context over all shipped structures; SetPS rows include the EMPTY
+    value set (a legitimate description) and multi-valued rows."""
+    upto = 5 if tier == 'quick' else 7
+    h, w = rng.randint(1, upto), rng.randint(1, 3)
+    mode = rng.choice(['mixed', 'mixed', 'sets', 'attrs'])
+    choices = {'mixed': ['SetPS', 'SetPS', 'AttributePS', 'IntervalPS', 'IntervalNumpyPS'],
+               'sets': ['SetPS'], 'attrs': ['AttributePS', 'SetPS']}[mode]
+    ptypes = [rng.choice(choices) for _ in range(w)]
+    p_empty = rng.choice([0.15, 0.4, 0.7])
+    rows = []
+    for _ in range(h):
+        row = []
+        for t in ptypes:
+            if t in ('IntervalPS', 'IntervalNumpyPS'):
+                a = rng.randint(-6, 6)
+                row.append(['n', a] if rng.random() < 0.5 else ['i', a, a + rng.randint(0, 4)])
+            elif t == 'SetPS':
+                row.append(['s', [] if rng.random() < p_empty else sorted(rng.sample(range(4), rng.randint(1, 3)))])
+            else:
+                row.append(['b', rng.random() < 0.5])
+        rows.append(row)
+    c = {'onames': rng.sample(range(60), h), 'anames': rng.sample(range(60), w), 'ptypes': ptypes, 'data': rows}
+    items = [[s_, False] for s_ in gen.all_subsets(h)]
+    for _ in range(4):
+        s_ = gen.random_subset(rng, h)
+        rng.shuffle(s_)
+        items.append([s_, rng.random() < 0.6])
+    return {'kind': 'pallobj', 'ctx': c, 'items': items}
+
+
 def setattr_case(rng, pattern):
     c = mv_ctx(rng, 5, 3) if pattern else formal_ctx(rng, 5)
     return {'kind': 'setattr', 'pattern': pattern, 'ctx': c, 'objs': gen.random_subset(rng, n_objects(c)),
@@ -659,6 +777,8 @@ def generate(rng, tier):
         cases.append(fromobj_case(rng, tier, pattern=False))
     for _ in range(20 if quick else 200):
         cases.append(fromobj_case(rng, tier, pattern=True))
+    for _ in range(45 if quick else 400):
+        cases.append(pallobj_case(rng, tier))
     for _ in range(60 if quick else 300):
         cases.append(setattr_case(rng, pattern=rng.random() < 0.4))
     for _ in range(40 if quick else 300):
@@ -672,6 +792,8 @@ def generate(rng, tier):
 def nontrivial(case):
     if case['kind'] == 'cmp':
         return len(case['sel']) >= 1 and all(n_objects(c) >= 2 for c in case['ctxs'])
+    if case['kind'] == 'pallobj':
+        return n_objects(case['ctx']) >= 2
     if case['kind'] in ('fromobj', 'pfromobj'):
         c = case['ctx']
         if 'table' in c:
@@ -686,6 +808,9 @@ def stats(case):
     if case['kind'] == 'cmp':
         d['stream'] = ('pattern-' if case['pattern'] else 'formal-') + case['stream']
         d['objects'] = n_objects(case['ctxs'][0])
+    elif case['kind'] == 'pallobj':
+        d['objects'] = n_objects(case['ctx'])
+        d['structures'] = '+'.join(sorted(set(case['ctx']['ptypes'])))
     elif case['kind'] in ('fromobj', 'pfromobj'):
         d['objects'] = n_objects(case['ctx'])
         d['items'] = min(len(case['items']) // 50 * 50, 500)
@@ -708,7 +833,7 @@ def shrink(case):
                 c['sel'] = [list(x) for x in case['sel']]
                 c['sel'][i][4] = s[4] // 2 if s[4] > 2 else s[4] - 1
                 out.append(c)
-    elif case['kind'] in ('fromobj', 'pfromobj'):
+    elif case['kind'] in ('fromobj', 'pfromobj', 'pallobj'):
         items = case['items']
         if len(items) > 1:
             half = len(items) // 2
